@@ -19,7 +19,7 @@ static std::string do_line(std::istringstream& is) {
     dsim::Config c;
     is >> c.P >> c.J >> c.R >> c.mode;
     std::ostringstream o;
-    if (c.P < 1 || c.P > 16 || c.J < 0 || c.J > 64 || c.R < 1 || c.R > 8 || (c.mode == 1 && c.P < 2)) return "{\"error\":\"bad configuration\"}";
+    if (c.P < 1 || c.P > 16 || c.J < 0 || c.J > 64 || c.R < 1 || c.R > 8 || c.mode < 0 || c.mode > c.P || (c.mode >= 1 && c.P < 2)) return "{\"error\":\"bad configuration\"}";
     if (cmd == "run") {
         c.order.resize(c.J);
         for (int j = 0; j < c.J; j++) is >> c.order[j];
